@@ -3,5 +3,529 @@ import MpirProofs.Lemmas.Base
 import Mpir.Model.DivZ
 import Mathlib.Tactic.Ring
 import Mathlib.Tactic.Linarith
+import Mathlib.Tactic.SplitIfs
 namespace Mpir.DivZ
+open Mpir
+
+/-! ### sizes -/
+
+theorem B_pow (k : Nat) : B ^ k = 2 ^ (64 * k) := by
+  unfold B; rw [← Nat.pow_mul]
+
+theorem sizeNat_le_iff (v k : Nat) : sizeNat v ≤ k ↔ v < B ^ k := by
+  unfold sizeNat
+  by_cases h : v = 0
+  · subst h; simp [B_pow]
+  · simp only [h, if_false]
+    rw [B_pow, ← Nat.log2_lt h]
+    omega
+
+theorem lt_B_pow_sizeNat (v : Nat) : v < B ^ sizeNat v := (sizeNat_le_iff v _).mp (Nat.le_refl _)
+
+theorem sizeNat_eq_zero {v : Nat} : sizeNat v = 0 ↔ v = 0 := by
+  unfold sizeNat; by_cases h : v = 0 <;> simp [h]
+
+theorem lt_of_sizeNat_lt {a b : Nat} (h : sizeNat a < sizeNat b) : a < b := by
+  have ha := lt_B_pow_sizeNat a
+  have hb : ¬ b < B ^ sizeNat a := fun hb => by
+    have := (sizeNat_le_iff b (sizeNat a)).mpr hb; omega
+  omega
+
+theorem siz_natAbs (v : Int) : (siz v).natAbs = sizeNat v.natAbs := by
+  unfold siz; split <;> simp
+
+theorem siz_eq_zero {v : Int} : siz v = 0 ↔ v = 0 := by
+  have := @sizeNat_eq_zero v.natAbs
+  unfold siz; split <;> omega
+
+theorem siz_neg_iff {v : Int} : siz v < 0 ↔ v < 0 := by
+  have := @sizeNat_eq_zero v.natAbs
+  unfold siz; split <;> omega
+
+theorem siz_nonneg_iff {v : Int} : 0 ≤ siz v ↔ 0 ≤ v := by
+  have := @siz_neg_iff v; omega
+
+theorem sameSign_siz (x y : Int) : sameSign (siz x) (siz y) ↔ (x < 0 ↔ y < 0) := by
+  unfold sameSign; rw [siz_neg_iff, siz_neg_iff]
+
+theorem Store.set_apply (s : Store) (i : Nat) (v : Int) (j : Nat) :
+    (s.set i v) j = if j = i then v else s j := rfl
+
+/-! ### truncating division by sign and magnitude -/
+
+theorem tdiv_sign_mag (x y : Int) :
+    Int.tdiv x y = if (x < 0 ↔ y < 0) then ((x.natAbs / y.natAbs : Nat) : Int) else -((x.natAbs / y.natAbs : Nat) : Int) := by
+  obtain ⟨a, rfl | rfl⟩ := Int.eq_nat_or_neg x <;> obtain ⟨b, rfl | rfl⟩ := Int.eq_nat_or_neg y
+  · have hc : (((a : Int) < 0) ↔ ((b : Int) < 0)) := by omega
+    rw [if_pos hc, ← Int.ofNat_tdiv]; simp
+  · by_cases hb : b = 0
+    · subst hb; simp
+    · have hc : ¬ (((a : Int) < 0) ↔ (-(b : Int) < 0)) := by omega
+      rw [if_neg hc, Int.tdiv_neg, ← Int.ofNat_tdiv]; simp
+  · by_cases ha : a = 0
+    · subst ha; simp
+    · have hc : ¬ ((-(a : Int) < 0) ↔ ((b : Int) < 0)) := by omega
+      rw [if_neg hc, Int.neg_tdiv, ← Int.ofNat_tdiv]; simp
+  · by_cases ha : a = 0
+    · subst ha; simp
+    · by_cases hb : b = 0
+      · subst hb; simp
+      · have hc : ((-(a : Int) < 0) ↔ (-(b : Int) < 0)) := by omega
+        rw [if_pos hc, Int.neg_tdiv, Int.tdiv_neg, ← Int.ofNat_tdiv]; simp
+
+theorem tmod_sign_mag (x y : Int) :
+    Int.tmod x y = if 0 ≤ x then ((x.natAbs % y.natAbs : Nat) : Int) else -((x.natAbs % y.natAbs : Nat) : Int) := by
+  obtain ⟨a, rfl | rfl⟩ := Int.eq_nat_or_neg x <;> obtain ⟨b, rfl | rfl⟩ := Int.eq_nat_or_neg y
+  · have hc : (0 : Int) ≤ (a : Int) := by omega
+    rw [if_pos hc, ← Int.ofNat_tmod]; simp
+  · have hc : (0 : Int) ≤ (a : Int) := by omega
+    rw [if_pos hc, Int.tmod_neg, ← Int.ofNat_tmod]; simp
+  · by_cases ha : a = 0
+    · subst ha; simp
+    · have hc : ¬ ((0 : Int) ≤ -(a : Int)) := by omega
+      rw [if_neg hc, Int.neg_tmod, ← Int.ofNat_tmod]; simp
+  · by_cases ha : a = 0
+    · subst ha; simp
+    · have hc : ¬ ((0 : Int) ≤ -(a : Int)) := by omega
+      rw [if_neg hc, Int.neg_tmod, Int.tmod_neg, ← Int.ofNat_tmod]; simp
+
+theorem tdiv_tmod_of_natAbs_lt {x y : Int} (h : x.natAbs < y.natAbs) : Int.tdiv x y = 0 ∧ Int.tmod x y = x := by
+  have h0 : Int.tdiv x y = 0 := by
+    rw [tdiv_sign_mag, Nat.div_eq_of_lt h]; simp
+  refine ⟨h0, ?_⟩
+  rw [Int.tmod_def, h0]; simp
+
+/-! ### floor and ceiling from truncation -/
+
+theorem fdiv_from_tdiv {x y : Int} (hy : y ≠ 0) :
+    Int.fdiv x y = if ¬ (x < 0 ↔ y < 0) ∧ Int.tmod x y ≠ 0 then Int.tdiv x y - 1 else Int.tdiv x y := by
+  rw [Int.fdiv_eq_tdiv]
+  by_cases hdv : y ∣ x
+  · have h0 : Int.tmod x y = 0 := Int.dvd_iff_tmod_eq_zero.mp hdv
+    simp [hdv, h0]
+  · have h0 : Int.tmod x y ≠ 0 := fun h => hdv (Int.dvd_iff_tmod_eq_zero.mpr h)
+    have hx : x ≠ 0 := fun h => hdv (h ▸ Int.dvd_zero y)
+    simp only [hdv, if_false, h0, ne_eq, not_false_eq_true, and_true]
+    rcases Int.lt_or_gt_of_ne hy with hneg | hpos
+    · have : y.sign = -1 := Int.sign_eq_neg_one_of_neg hneg
+      rw [this]; split_ifs <;> omega
+    · have : y.sign = 1 := Int.sign_eq_one_of_pos hpos
+      rw [this]; split_ifs <;> omega
+
+theorem fmod_from_tmod {x y : Int} (hy : y ≠ 0) :
+    Int.fmod x y = if ¬ (x < 0 ↔ y < 0) ∧ Int.tmod x y ≠ 0 then Int.tmod x y + y else Int.tmod x y := by
+  rw [Int.fmod_def, fdiv_from_tdiv hy]
+  by_cases h : ¬ (x < 0 ↔ y < 0) ∧ Int.tmod x y ≠ 0
+  · rw [if_pos h, if_pos h, Int.tmod_def]; ring
+  · rw [if_neg h, if_neg h, Int.tmod_def]
+
+theorem cdivQ_from_tdiv {x y : Int} (hy : y ≠ 0) :
+    cdivQ x y = if (x < 0 ↔ y < 0) ∧ Int.tmod x y ≠ 0 then Int.tdiv x y + 1 else Int.tdiv x y := by
+  unfold cdivQ
+  rw [fdiv_from_tdiv hy, Int.neg_tdiv, Int.neg_tmod]
+  by_cases h0 : Int.tmod x y = 0
+  · simp [h0]
+  · have hx : x ≠ 0 := fun h => h0 (by rw [h]; simp)
+    have e : (¬ (-x < 0 ↔ y < 0)) ↔ (x < 0 ↔ y < 0) := by omega
+    by_cases h : (x < 0 ↔ y < 0)
+    · have h1 : ¬ (-x < 0 ↔ y < 0) ∧ -Int.tmod x y ≠ 0 := ⟨e.mpr h, by omega⟩
+      rw [if_pos h1, if_pos ⟨h, h0⟩]; ring
+    · have h1 : ¬ (¬ (-x < 0 ↔ y < 0) ∧ -Int.tmod x y ≠ 0) := fun hh => h (e.mp hh.1)
+      have h2 : ¬ ((x < 0 ↔ y < 0) ∧ Int.tmod x y ≠ 0) := fun hh => h hh.1
+      rw [if_neg h1, if_neg h2]; ring
+
+theorem cdivR_from_tmod {x y : Int} (hy : y ≠ 0) :
+    cdivR x y = if (x < 0 ↔ y < 0) ∧ Int.tmod x y ≠ 0 then Int.tmod x y - y else Int.tmod x y := by
+  unfold cdivR
+  rw [cdivQ_from_tdiv hy]
+  by_cases h : (x < 0 ↔ y < 0) ∧ Int.tmod x y ≠ 0
+  · rw [if_pos h, if_pos h, Int.tmod_def]; ring
+  · rw [if_neg h, if_neg h, Int.tmod_def]; ring
+
+/-! ### the wrappers -/
+
+theorem siz_natAbs_ne_zero {v : Int} (h : v ≠ 0) : (siz v).natAbs ≠ 0 := by
+  rw [siz_natAbs]; intro h'; exact h (by have := sizeNat_eq_zero.mp h'; omega)
+
+theorem tmod_lt_zero_iff {x y : Int} (h : Int.tmod x y ≠ 0) : Int.tmod x y < 0 ↔ x < 0 := by
+  rw [tmod_sign_mag] at h ⊢
+  split_ifs at h ⊢ <;> omega
+
+theorem tdiv_qr_eq (s : Store) (q r n d : Nat) (hqr : q ≠ r) (hd : s d ≠ 0) :
+    tdiv_qr s q r n d = .ok (fun j => if j = r then Int.tmod (s n) (s d) else if j = q then Int.tdiv (s n) (s d) else s j) := by
+  have hdl : (siz (s d)).natAbs ≠ 0 := by
+    rw [siz_natAbs]; intro h; exact hd (by have := sizeNat_eq_zero.mp h; omega)
+  unfold tdiv_qr mpn_tdiv_qr
+  simp only [hdl, if_false]
+  split
+  · rename_i h
+    have hlt : (s n).natAbs < (s d).natAbs := lt_of_sizeNat_lt (by rw [siz_natAbs, siz_natAbs] at h; omega)
+    obtain ⟨h0, h1⟩ := tdiv_tmod_of_natAbs_lt hlt
+    congr 1; funext j
+    simp only [Store.set_apply, h0, h1]
+    by_cases hnr : n = r
+    · subst hnr; simp only [ne_eq, not_true_eq_false, if_false]; split_ifs <;> simp_all
+    · simp only [ne_eq, hnr, not_false_eq_true, if_true, Store.set_apply]; split_ifs <;> simp_all
+  · congr 1; funext j
+    simp only [Store.set_apply, tdiv_sign_mag (s n) (s d), tmod_sign_mag (s n) (s d), sameSign_siz, ge_iff_le, siz_nonneg_iff]
+
+theorem tdiv_q_eq (s : Store) (q n d : Nat) (hd : s d ≠ 0) :
+    tdiv_q s q n d = .ok (s.set q (Int.tdiv (s n) (s d))) := by
+  have hdl := siz_natAbs_ne_zero hd
+  unfold tdiv_q mpn_tdiv_q
+  simp only [hdl, if_false]
+  split
+  · rename_i h
+    have hlt : (s n).natAbs < (s d).natAbs := lt_of_sizeNat_lt (by rw [siz_natAbs, siz_natAbs] at h; omega)
+    rw [(tdiv_tmod_of_natAbs_lt hlt).1]
+  · simp only [tdiv_sign_mag (s n) (s d), sameSign_siz]
+
+theorem tdiv_r_eq (s : Store) (r n d : Nat) (hd : s d ≠ 0) :
+    tdiv_r s r n d = .ok (s.set r (Int.tmod (s n) (s d))) := by
+  have hdl := siz_natAbs_ne_zero hd
+  unfold tdiv_r mpn_tdiv_qr
+  simp only [hdl, if_false]
+  split
+  · rename_i h
+    have hlt : (s n).natAbs < (s d).natAbs := lt_of_sizeNat_lt (by rw [siz_natAbs, siz_natAbs] at h; omega)
+    rw [(tdiv_tmod_of_natAbs_lt hlt).2]
+    congr 1; funext j
+    by_cases hnr : n = r
+    · subst hnr; simp only [ne_eq, not_true_eq_false, if_false, Store.set_apply]; split_ifs <;> simp_all
+    · simp only [ne_eq, hnr, not_false_eq_true, if_true]
+  · simp only [tmod_sign_mag (s n) (s d), ge_iff_le, siz_nonneg_iff]
+
+theorem fresh_ne (a b c d : Nat) : fresh a b c d ≠ a ∧ fresh a b c d ≠ b ∧ fresh a b c d ≠ c ∧ fresh a b c d ≠ d := by
+  unfold fresh; omega
+
+theorem cfdiv_qr_eq (ceil : Bool) (s : Store) (q r n d : Nat) (hqr : q ≠ r) (hd : s d ≠ 0) :
+    cfdiv_qr ceil s q r n d = .ok (fun j =>
+      if j = r then (if ceil then cdivR (s n) (s d) else Int.fmod (s n) (s d))
+      else if j = q then (if ceil then cdivQ (s n) (s d) else Int.fdiv (s n) (s d)) else s j) := by
+  obtain ⟨htq, htr, htn, htd⟩ := fresh_ne q r n d
+  unfold cfdiv_qr
+  generalize fresh q r n d = t at *
+  have hrq : r ≠ q := Ne.symm hqr
+  rw [show (fun j => if j = r then (if ceil then cdivR (s n) (s d) else Int.fmod (s n) (s d))
+      else if j = q then (if ceil then cdivQ (s n) (s d) else Int.fdiv (s n) (s d)) else s j) =
+      (fun j => if j = r then (if ceil then (if (s n < 0 ↔ s d < 0) ∧ Int.tmod (s n) (s d) ≠ 0 then Int.tmod (s n) (s d) - s d else Int.tmod (s n) (s d))
+                               else (if ¬ (s n < 0 ↔ s d < 0) ∧ Int.tmod (s n) (s d) ≠ 0 then Int.tmod (s n) (s d) + s d else Int.tmod (s n) (s d)))
+      else if j = q then (if ceil then (if (s n < 0 ↔ s d < 0) ∧ Int.tmod (s n) (s d) ≠ 0 then Int.tdiv (s n) (s d) + 1 else Int.tdiv (s n) (s d))
+                               else (if ¬ (s n < 0 ↔ s d < 0) ∧ Int.tmod (s n) (s d) ≠ 0 then Int.tdiv (s n) (s d) - 1 else Int.tdiv (s n) (s d))) else s j) from by
+    rw [cdivR_from_tmod hd, cdivQ_from_tdiv hd, fmod_from_tmod hd, fdiv_from_tdiv hd]]
+  by_cases hc : q = d ∨ r = d
+  · simp only [hc, if_true]
+    have h0 : (s.set t (s d)) t ≠ 0 := by simp [Store.set_apply, hd]
+    rw [tdiv_qr_eq _ q r n t hqr h0]
+    simp only [Store.set_apply, if_pos, htn.symm, if_false, hqr, hrq, htq, htr, sameSign_siz, ne_eq, siz_eq_zero]
+    congr 1; funext j
+    cases ceil <;> simp only [Store.set_apply, Bool.false_eq_true, if_false, if_true] <;> split_ifs <;> simp_all [Store.set_apply]
+  · have hqd : q ≠ d := fun h => hc (Or.inl h)
+    have hrd : r ≠ d := fun h => hc (Or.inr h)
+    simp only [hc, if_false]
+    rw [tdiv_qr_eq _ q r n d hqr hd]
+    simp only [Store.set_apply, if_pos, htn.symm, if_false, hqr, hrq, htq, htr, hqd.symm, hrd.symm, sameSign_siz, ne_eq, siz_eq_zero]
+    congr 1; funext j
+    cases ceil <;> simp only [Store.set_apply, Bool.false_eq_true, if_false, if_true] <;> split_ifs <;> simp_all [Store.set_apply]
+
+theorem cfdiv_q_eq (ceil : Bool) (s : Store) (q n d : Nat) (hd : s d ≠ 0) :
+    cfdiv_q ceil s q n d = .ok (s.set q (if ceil then cdivQ (s n) (s d) else Int.fdiv (s n) (s d))) := by
+  obtain ⟨htq, htn, htd, _⟩ := fresh_ne q n d 0
+  unfold cfdiv_q
+  generalize fresh q n d 0 = t at *
+  dsimp only
+  rw [cdivQ_from_tdiv hd, fdiv_from_tdiv hd, tdiv_qr_eq s q t n d (Ne.symm htq) hd]
+  simp only [Store.set_apply, if_pos, if_false, htq, Ne.symm htq, sameSign_siz, ne_eq, siz_eq_zero]
+  congr 1; funext j
+  have e : (s d < 0 ↔ s n < 0) ↔ (s n < 0 ↔ s d < 0) := by omega
+  cases ceil <;> simp only [Store.set_apply, Bool.false_eq_true, if_false, if_true, e] <;> split_ifs <;> simp_all [Store.set_apply]
+
+theorem cfdiv_r_eq (ceil : Bool) (s : Store) (r n d : Nat) (hd : s d ≠ 0) :
+    cfdiv_r ceil s r n d = .ok (s.set r (if ceil then cdivR (s n) (s d) else Int.fmod (s n) (s d))) := by
+  obtain ⟨htr, htn, htd, _⟩ := fresh_ne r n d 0
+  unfold cfdiv_r
+  generalize fresh r n d 0 = t at *
+  rw [cdivR_from_tmod hd, fmod_from_tmod hd]
+  by_cases hc : r = d
+  · simp only [hc, if_true]
+    subst hc
+    have h0 : (s.set t (s r)) t ≠ 0 := by simp [Store.set_apply, hd]
+    rw [tdiv_r_eq _ r n t h0]
+    simp only [Store.set_apply, if_pos, if_false, htn.symm, htr, Ne.symm htr, sameSign_siz, ne_eq, siz_eq_zero]
+    congr 1; funext j
+    by_cases hnr : n = r
+    · subst hnr
+      simp only [if_true]
+      by_cases hz : Int.tmod (s n) (s n) = 0
+      · cases ceil <;> simp_all [Store.set_apply]
+      · exact absurd (Int.tmod_self) hz
+    · simp only [hnr, if_false]
+      have e : (s r < 0 ↔ s n < 0) ↔ (s n < 0 ↔ s r < 0) := by omega
+      cases ceil <;> simp only [Store.set_apply, Bool.false_eq_true, if_false, if_true, e] <;> split_ifs <;> simp_all [Store.set_apply]
+  · simp only [hc, if_false]
+    rw [tdiv_r_eq _ r n d hd]
+    simp only [Store.set_apply, if_pos, if_false, Ne.symm hc, sameSign_siz, ne_eq, siz_eq_zero]
+    congr 1; funext j
+    by_cases hnr : n = r
+    · subst hnr
+      simp only [if_true]
+      by_cases hz : Int.tmod (s n) (s d) = 0
+      · cases ceil <;> simp_all [Store.set_apply]
+      · have e : (s d < 0 ↔ Int.tmod (s n) (s d) < 0) ↔ (s n < 0 ↔ s d < 0) := by
+          rw [tmod_lt_zero_iff hz]; omega
+        cases ceil <;> simp only [Store.set_apply, Bool.false_eq_true, if_false, if_true, e] <;> split_ifs <;> simp_all [Store.set_apply]
+    · simp only [hnr, if_false]
+      have e : (s d < 0 ↔ s n < 0) ↔ (s n < 0 ↔ s d < 0) := by omega
+      cases ceil <;> simp only [Store.set_apply, Bool.false_eq_true, if_false, if_true, e] <;> split_ifs <;> simp_all [Store.set_apply]
+
+theorem emod_from_tmod (x y : Int) :
+    x % y = if Int.tmod x y ≠ 0 ∧ x < 0 then (if y < 0 then Int.tmod x y - y else Int.tmod x y + y) else Int.tmod x y := by
+  rw [Int.emod_eq_tmod]
+  by_cases hdv : y ∣ x
+  · have h0 : Int.tmod x y = 0 := Int.dvd_iff_tmod_eq_zero.mp hdv
+    simp [hdv, h0]
+  · have h0 : Int.tmod x y ≠ 0 := fun h => hdv (Int.dvd_iff_tmod_eq_zero.mpr h)
+    simp only [hdv, or_false, h0, ne_eq, not_false_eq_true, true_and]
+    split_ifs <;> omega
+
+theorem mod_eq (s : Store) (r n d : Nat) (hd : s d ≠ 0) :
+    mod s r n d = .ok (s.set r (s n % s d)) := by
+  obtain ⟨htr, htn, htd, _⟩ := fresh_ne r n d 0
+  unfold mod
+  generalize fresh r n d 0 = t at *
+  dsimp only
+  rw [emod_from_tmod]
+  by_cases hc : r = d
+  · simp only [hc, if_true]
+    subst hc
+    have h0 : (s.set t (s r)) t ≠ 0 := by simp [Store.set_apply, hd]
+    rw [tdiv_r_eq _ r n t h0]
+    simp only [Store.set_apply, if_pos, if_false, htn.symm, htr, Ne.symm htr, ne_eq, siz_eq_zero, siz_neg_iff]
+    congr 1; funext j
+    by_cases hnr : n = r
+    · subst hnr
+      have hz : Int.tmod (s n) (s n) = 0 := Int.tmod_self
+      simp_all [Store.set_apply]
+    · simp only [hnr, if_false]
+      split_ifs <;> simp_all [Store.set_apply]
+  · simp only [hc, if_false]
+    rw [tdiv_r_eq _ r n d hd]
+    simp only [Store.set_apply, if_pos, if_false, Ne.symm hc, ne_eq, siz_eq_zero, siz_neg_iff]
+    congr 1; funext j
+    by_cases hnr : n = r
+    · subst hnr
+      simp only [if_true]
+      by_cases hz : Int.tmod (s n) (s d) = 0
+      · simp_all [Store.set_apply]
+      · have e := tmod_lt_zero_iff hz
+        simp only [e]
+        split_ifs <;> simp_all [Store.set_apply]
+    · simp only [hnr, if_false]
+      split_ifs <;> simp_all [Store.set_apply]
+
+theorem tdiv_qr_div0 (s : Store) (q r n d : Nat) (hd : s d = 0) : tdiv_qr s q r n d = .error "div0" := by
+  unfold tdiv_qr; simp [hd, siz, sizeNat]
+theorem tdiv_q_div0 (s : Store) (q n d : Nat) (hd : s d = 0) : tdiv_q s q n d = .error "div0" := by
+  unfold tdiv_q; simp [hd, siz, sizeNat]
+theorem tdiv_r_div0 (s : Store) (r n d : Nat) (hd : s d = 0) : tdiv_r s r n d = .error "div0" := by
+  unfold tdiv_r; simp [hd, siz, sizeNat]
+theorem cfdiv_qr_div0 (c : Bool) (s : Store) (q r n d : Nat) (hd : s d = 0) : cfdiv_qr c s q r n d = .error "div0" := by
+  obtain ⟨htq, htr, htn, htd⟩ := fresh_ne q r n d
+  unfold cfdiv_qr
+  generalize fresh q r n d = t at *
+  dsimp only
+  by_cases hc : q = d ∨ r = d
+  · simp only [hc, if_true]; rw [tdiv_qr_div0 _ q r n t (by simp [Store.set_apply, hd])]
+  · simp only [hc, if_false]; rw [tdiv_qr_div0 _ q r n d hd]
+theorem cfdiv_q_div0 (c : Bool) (s : Store) (q n d : Nat) (hd : s d = 0) : cfdiv_q c s q n d = .error "div0" := by
+  unfold cfdiv_q; dsimp only; rw [tdiv_qr_div0 _ _ _ _ _ hd]
+theorem cfdiv_r_div0 (c : Bool) (s : Store) (r n d : Nat) (hd : s d = 0) : cfdiv_r c s r n d = .error "div0" := by
+  obtain ⟨htr, htn, htd, _⟩ := fresh_ne r n d 0
+  unfold cfdiv_r
+  generalize fresh r n d 0 = t at *
+  dsimp only
+  by_cases hc : r = d
+  · simp only [hc, if_true]; rw [tdiv_r_div0 _ _ n t (by simp [Store.set_apply, hd])]
+  · simp only [hc, if_false]; rw [tdiv_r_div0 _ r n d hd]
+theorem mod_div0 (s : Store) (r n d : Nat) (hd : s d = 0) : mod s r n d = .error "div0" := by
+  obtain ⟨htr, htn, htd, _⟩ := fresh_ne r n d 0
+  unfold mod
+  generalize fresh r n d 0 = t at *
+  dsimp only
+  by_cases hc : r = d
+  · simp only [hc, if_true]; rw [tdiv_r_div0 _ _ n t (by simp [Store.set_apply, hd])]
+  · simp only [hc, if_false]; rw [tdiv_r_div0 _ r n d hd]
+
+/-- the specified quotient / remainder of a rounding direction: 0 truncate, -1 floor, 1 ceiling -/
+def specQ (dir : Int) (x y : Int) : Int := if dir = 0 then Int.tdiv x y else if dir = -1 then Int.fdiv x y else cdivQ x y
+def specR (dir : Int) (x y : Int) : Int := if dir = 0 then Int.tmod x y else if dir = -1 then Int.fmod x y else cdivR x y
+
+theorem spec_ui (dir : Int) (hdir : dir = 0 ∨ dir = -1 ∨ dir = 1) (x : Int) (u : Nat) (hu : u ≠ 0) :
+    specQ dir x u = (if uiAdjust dir (x.natAbs % u) (siz x)
+        then (if 0 ≤ x then ((x.natAbs / u + 1 : Nat) : Int) else -((x.natAbs / u + 1 : Nat) : Int))
+        else (if 0 ≤ x then ((x.natAbs / u : Nat) : Int) else -((x.natAbs / u : Nat) : Int))) ∧
+    specR dir x u = (if x.natAbs % u = 0 then 0
+        else uiRem dir (siz x) (if uiAdjust dir (x.natAbs % u) (siz x) then u - x.natAbs % u else x.natAbs % u)) := by
+  have hy : (u : Int) ≠ 0 := by omega
+  have hy0 : ¬ ((u : Int) < 0) := by omega
+  have hlt : x.natAbs % u < u := Nat.mod_lt _ (by omega)
+  have hq := tdiv_sign_mag x u
+  have hr := tmod_sign_mag x u
+  have hF := fdiv_from_tdiv (x := x) hy
+  have hFm := fmod_from_tmod (x := x) hy
+  have hC := cdivQ_from_tdiv (x := x) hy
+  have hCm := cdivR_from_tmod (x := x) hy
+  simp only [Int.natAbs_natCast, hy0, iff_false, not_lt] at hq hr hF hFm hC hCm
+  have hsz : siz x < 0 ↔ x < 0 := siz_neg_iff
+  unfold specQ specR uiAdjust uiRem
+  generalize x.natAbs / u = k at *
+  generalize x.natAbs % u = m at *
+  generalize siz x = sz at *
+  generalize Int.tdiv x u = T at *
+  generalize Int.tmod x u = M at *
+  by_cases hx : 0 ≤ x <;>
+    simp only [hx, if_true, if_false, not_true_eq_false, not_false_eq_true, false_and, true_and] at hq hr hF hFm hC hCm <;>
+    subst hq hr <;>
+    rcases hdir with rfl | rfl | rfl
+  all_goals (
+    simp only [Int.reduceNeg, Int.reduceEq, if_false, if_true, true_and, false_and, or_false, false_or]
+    try rw [hF, hFm]
+    try rw [hC, hCm]
+    constructor <;> split_ifs <;> first | omega | (exfalso; simp_all))
+
+theorem ui_incr_fits {a u : Nat} (hu0 : u ≠ 0) (h : a % u ≠ 0) : ¬ (a / u + 1 ≥ B ^ sizeNat a) := by
+  have h1 := lt_B_pow_sizeNat a
+  have hu : 2 ≤ u := by
+    rcases Nat.lt_or_ge u 2 with h2 | h2
+    · have : u = 1 := by omega
+      subst this; exact absurd (Nat.mod_one a) h
+    · exact h2
+  have h2 := Nat.div_add_mod a u
+  have h3 : 2 * (a / u) ≤ u * (a / u) := Nat.mul_le_mul_right _ hu
+  omega
+
+theorem uiRem_natAbs (dir ns : Int) (k : Nat) : (uiRem dir ns k).natAbs = k := by
+  unfold uiRem; split_ifs <;> simp
+
+theorem div_q_ui_eq (dir : Int) (hdir : dir = 0 ∨ dir = -1 ∨ dir = 1) (s : Store) (q n : Nat) (u : Nat) (hu : u ≠ 0) :
+    div_q_ui dir s q n u = .ok (s.set q (specQ dir (s n) u), (specR dir (s n) u).natAbs) := by
+  obtain ⟨hQ, hR⟩ := spec_ui dir hdir (s n) u hu
+  rw [hQ, hR]
+  unfold div_q_ui mpn_divrem_1
+  simp only [hu, if_false]
+  have hnn : siz (s n) ≥ 0 ↔ 0 ≤ s n := siz_nonneg_iff
+  by_cases hz : siz (s n) = 0
+  · have h0 : s n = 0 := siz_eq_zero.mp hz
+    simp [hz, h0, uiAdjust]
+  · simp only [hz, if_false, siz_natAbs]
+    by_cases hadj : uiAdjust dir ((s n).natAbs % u) (siz (s n))
+    · have hrl : (s n).natAbs % u ≠ 0 := hadj.1
+      simp only [hadj, if_true, ui_incr_fits hu hrl, if_false, hrl, uiRem_natAbs, hnn]
+    · simp only [hadj, if_false, hnn]
+      by_cases hrl : (s n).natAbs % u = 0
+      · simp [hrl]
+      · simp only [hrl, if_false, uiRem_natAbs]
+
+theorem div_r_ui_eq (dir : Int) (hdir : dir = 0 ∨ dir = -1 ∨ dir = 1) (s : Store) (r n : Nat) (u : Nat) (hu : u ≠ 0) :
+    div_r_ui dir s r n u = .ok (s.set r (specR dir (s n) u), (specR dir (s n) u).natAbs) := by
+  obtain ⟨_, hR⟩ := spec_ui dir hdir (s n) u hu
+  rw [hR]
+  unfold div_r_ui mpn_mod_1
+  simp only [hu, if_false]
+  by_cases hz : siz (s n) = 0
+  · have h0 : s n = 0 := siz_eq_zero.mp hz
+    simp [hz, h0]
+  · simp only [hz, if_false]
+    by_cases hrl : (s n).natAbs % u = 0
+    · simp [hrl]
+    · simp only [hrl, if_false, uiRem_natAbs]
+
+theorem div_qr_ui_eq (dir : Int) (hdir : dir = 0 ∨ dir = -1 ∨ dir = 1) (s : Store) (q r n : Nat) (hqr : q ≠ r) (u : Nat) (hu : u ≠ 0) :
+    div_qr_ui dir s q r n u = .ok ((s.set r (specR dir (s n) u)).set q (specQ dir (s n) u), (specR dir (s n) u).natAbs) := by
+  obtain ⟨hQ, hR⟩ := spec_ui dir hdir (s n) u hu
+  rw [hQ, hR]
+  unfold div_qr_ui mpn_divrem_1
+  simp only [hu, if_false]
+  have hnn : siz (s n) ≥ 0 ↔ 0 ≤ s n := siz_nonneg_iff
+  by_cases hz : siz (s n) = 0
+  · have h0 : s n = 0 := siz_eq_zero.mp hz
+    simp only [hz, h0, if_true]
+    simp [uiAdjust]
+    intro _; funext j; simp only [Store.set_apply]; split_ifs <;> simp_all
+  · simp only [hz, if_false, siz_natAbs]
+    by_cases hrl : (s n).natAbs % u = 0
+    · have hadj : ¬ uiAdjust dir 0 (siz (s n)) := fun h => h.1 rfl
+      simp [hrl, hadj, hnn]
+    · simp only [hrl, if_false]
+      by_cases hadj : uiAdjust dir ((s n).natAbs % u) (siz (s n))
+      · simp only [hadj, if_true, ui_incr_fits hu hrl, if_false, uiRem_natAbs, hnn]
+      · simp only [hadj, if_false, hnn, uiRem_natAbs]
+
+theorem div_ui_eq (dir : Int) (hdir : dir = 0 ∨ dir = -1 ∨ dir = 1) (x : Int) (u : Nat) (hu : u ≠ 0) :
+    div_ui dir x u = .ok (specR dir x u).natAbs := by
+  obtain ⟨_, hR⟩ := spec_ui dir hdir x u hu
+  rw [hR]
+  unfold div_ui mpn_mod_1
+  simp only [hu, if_false]
+  by_cases hz : siz x = 0
+  · have h0 : x = 0 := siz_eq_zero.mp hz
+    simp [hz, h0]
+  · simp only [hz, if_false]
+    by_cases hrl : x.natAbs % u = 0
+    · simp [hrl]
+    · simp only [hrl, if_false, uiRem_natAbs]
+
+theorem div_ui_div0 (dir : Int) (s : Store) (q r n : Nat) (x : Int) :
+    div_q_ui dir s q n 0 = .error "div0" ∧ div_r_ui dir s r n 0 = .error "div0" ∧
+    div_qr_ui dir s q r n 0 = .error "div0" ∧ div_ui dir x 0 = .error "div0" := by
+  simp [div_q_ui, div_r_ui, div_qr_ui, div_ui]
+
+/-! ### what the specified pairs are -/
+
+theorem tmod_facts (n d : Int) (hd : d ≠ 0) :
+    (Int.tmod n d).natAbs < d.natAbs ∧ (Int.tmod n d = 0 ∨ (Int.tmod n d < 0 ↔ n < 0)) ∧
+    n = Int.tdiv n d * d + Int.tmod n d := by
+  refine ⟨?_, ?_, ?_⟩
+  · rw [Int.natAbs_tmod]; exact Nat.mod_lt _ (by omega)
+  · by_cases h : Int.tmod n d = 0
+    · exact Or.inl h
+    · exact Or.inr (tmod_lt_zero_iff h)
+  · have := Int.tdiv_mul_add_tmod n d; omega
+
+theorem tdiv_pair (n d : Int) (hd : d ≠ 0) :
+    n = tdivQ n d * d + tdivR n d ∧ (tdivR n d).natAbs < d.natAbs ∧ (tdivR n d = 0 ∨ (tdivR n d < 0 ↔ n < 0)) ∧
+    (tdivQ n d).natAbs = n.natAbs / d.natAbs := by
+  obtain ⟨h1, h2, h3⟩ := tmod_facts n d hd
+  exact ⟨h3, h1, h2, by unfold tdivQ; rw [Int.natAbs_tdiv]; rfl⟩
+
+theorem fdiv_pair (n d : Int) (hd : d ≠ 0) :
+    n = fdivQ n d * d + fdivR n d ∧ (fdivR n d).natAbs < d.natAbs ∧ (fdivR n d = 0 ∨ (fdivR n d < 0 ↔ d < 0)) := by
+  obtain ⟨h1, h2, h3⟩ := tmod_facts n d hd
+  have e := Int.fdiv_mul_add_fmod n d
+  unfold fdivQ fdivR
+  refine ⟨by omega, ?_, ?_⟩ <;> rw [fmod_from_tmod hd] <;> split_ifs <;> omega
+
+theorem cdiv_pair (n d : Int) (hd : d ≠ 0) :
+    n = cdivQ n d * d + cdivR n d ∧ (cdivR n d).natAbs < d.natAbs ∧ (cdivR n d = 0 ∨ (cdivR n d < 0 ↔ 0 < d)) := by
+  obtain ⟨h1, h2, h3⟩ := tmod_facts n d hd
+  refine ⟨by unfold cdivR; omega, ?_, ?_⟩ <;> rw [cdivR_from_tmod hd] <;> split_ifs <;> omega
+
+/-- floor: q is the largest integer with q·d ≤ n (d > 0), resp. q·d ≥ n (d < 0) -/
+theorem fdiv_floor (n d : Int) (hd : d ≠ 0) :
+    (0 < d → fdivQ n d * d ≤ n ∧ n < (fdivQ n d + 1) * d) ∧ (d < 0 → (fdivQ n d + 1) * d < n ∧ n ≤ fdivQ n d * d) := by
+  obtain ⟨h1, h2, h3⟩ := fdiv_pair n d hd
+  have e : (fdivQ n d + 1) * d = fdivQ n d * d + d := by ring
+  constructor <;> intro hdd <;> rw [e] <;> omega
+
+/-- ceiling: q is the smallest integer with q·d ≥ n (d > 0), resp. q·d ≤ n (d < 0) -/
+theorem cdiv_ceil (n d : Int) (hd : d ≠ 0) :
+    (0 < d → (cdivQ n d - 1) * d < n ∧ n ≤ cdivQ n d * d) ∧ (d < 0 → cdivQ n d * d ≤ n ∧ n < (cdivQ n d - 1) * d) := by
+  obtain ⟨h1, h2, h3⟩ := cdiv_pair n d hd
+  have e : (cdivQ n d - 1) * d = cdivQ n d * d - d := by ring
+  constructor <;> intro hdd <;> rw [e] <;> omega
+
+theorem mod_range (n d : Int) (hd : d ≠ 0) : 0 ≤ modS n d ∧ modS n d < |d| ∧ d ∣ n - modS n d := by
+  unfold modS
+  exact ⟨Int.emod_nonneg _ hd, Int.emod_lt_abs _ hd, Int.dvd_self_sub_emod⟩
+
 end Mpir.DivZ
